@@ -45,6 +45,9 @@ use crate::snap::Snap;
 /// Well-formedness of an AffTree snapshot (property C04's invariant).
 /// Returns (tag, message) of the first failure.
 pub fn well_formed(s: &Snap, expect_out: Option<usize>) -> Result<(), (String, String)> {
+    if let Some(m) = s.nonfinite.first() {
+        return Err(("nonfinite".into(), m.clone()));
+    }
     let max_rows = (usize::BITS - (s.k - 1).leading_zeros()) as usize; // ceil(log2 K)
     let mut out_dim: Option<usize> = expect_out;
     for (i, n) in &s.nodes {
